@@ -138,6 +138,10 @@ theorem concatFrame_restores {s : St} (hw : WF s) (values : List OVal) (inner : 
   have hbl := hw.base_le
   obtain ⟨hp1, hp2⟩ := run_pushes values hw
   unfold concatFrame
+  by_cases hv : values.isEmpty = true
+  · rw [if_pos hv]
+    exact ⟨fun s' e => (by cases e; exact ⟨rfl, rfl, hw, rfl⟩), fun e he => (by cases he)⟩
+  rw [if_neg hv]
   cases hr : run s (values.map .push) with
   | error e0 =>
     simp only [bind_err]
